@@ -92,6 +92,7 @@ type CPage struct {
 	Broken string // "", "404", "notjson", "wrongtype": the page cannot be loaded
 	URL    string
 	NoID   bool
+	Anonymous bool // a remote page that states no id of its own
 	RefStyle int // how a remote page is referred to: 0 URL string, 1 {"id"}, 2 {"id","type"}, 3 network-path reference, 4 path-absolute reference
 }
 
@@ -318,7 +319,7 @@ func (f *Fedi) Install(l *CLayout) {
 	for i := len(l.Pages) - 1; i >= 0; i-- {
 		p := l.Pages[i]
 		d := Doc{"type": kind + "Page", "partOf": l.RootURL}
-		if !p.NoID || p.Remote {
+		if (!p.NoID || p.Remote) && !p.Anonymous {
 			d["id"] = p.URL
 		}
 		if len(p.Items) > 0 || f.t.Chance(1, 2) {
